@@ -15,6 +15,7 @@ import GormModel.Lemmas.DeleteKeys
 import GormModel.Lemmas.Scopes
 import GormModel.Lemmas.UpdateKeys
 import GormModel.Lemmas.GuardMode
+import GormModel.Lemmas.AssocGuard
 namespace Gorm
 
 /-- a chain call contributes a condition iff its form is effective -/
